@@ -48,6 +48,7 @@ class Stats:
 
 
 STATS = Stats()
+INT64_WRAP = [False]     # opt-in machine model for float -> int64 casts (set by harnesses that care)
 
 
 def reset_stats():
@@ -414,7 +415,12 @@ class Sym:
     # conversions
     def astype(self, ty, **kw):
         if ty in (int, np.int64, np.int32, np.int8, 'int') or (isinstance(ty, type) and issubclass(ty, (int, np.integer))):
-            return self if self.is_int else trunc(self)
+            v = self if self.is_int else trunc(self)
+            if INT64_WRAP[0] and const_value(v.t) is None:
+                # float64 -> int64 conversion of an out-of-range value yields INT64_MIN on x86-64 (what NumPy does)
+                lo, hi = z3.RealVal(-2 ** 63), z3.RealVal(2 ** 63 - 1)
+                return Sym(z3.If(z3.And(v.t >= lo, v.t <= hi), v.t, lo), True)
+            return v
         return self
 
     def __round__(self, nd=None):
